@@ -188,6 +188,11 @@ func FetchType(typ reflect.Type, typMap map[string]reflect.Type) {
 		return
 	}
 
+	// a struct type is entered once: self-referential types end here
+	if _, ok := typMap[typ.Name()]; ok {
+		return
+	}
+
 	typMap[typ.Name()] = typ
 	for i := 0; i < typ.NumField(); i++ {
 		FetchType(typ.Field(i).Type, typMap)
